@@ -23,6 +23,8 @@ var checks = map[string]func(*ev.Ctx){
 	"C10": props.C10,
 	"C11": props.C11,
 	"C12": props.C12,
+	"C13": props.C13,
+	"C14": props.C14,
 	"C15": props.C15,
 	"C16": props.C16,
 	"C20": props.C20,
